@@ -13,7 +13,9 @@ import time
 import warnings
 
 from vf import listenerkit as lk
-from vf.runner import h64, short, exc_key
+from vf.runner import h64, short
+
+exc_key = lk.exc_key
 
 import pywbem
 from pywbem import WBEMListener
@@ -296,10 +298,11 @@ def execute(ctx, cfg, run):
         for t in senders:
             t.join(20)
         hung = [t.name for t in senders if t.is_alive()]
+        owner = lk.listener_of_port(port)
         refused = lk.connect_refused(port)
         bindable = lk.Ports.bindable(port)
         log.add('post-stop', wave=w, threads=left, refused=refused,
-                bindable=bindable, hung_senders=hung)
+                bindable=bindable, hung_senders=hung, owner=owner)
     run.phase = 'settle'
     # late deliveries (after stop() returned) would show up here
     time.sleep(0.05)
@@ -351,6 +354,16 @@ def judge(ctx, cfg, run, detail):
     # -- start()/stop() results -------------------------------------------
     for w, kw in sorted(start_exc.items()):
         exc = kw['exc']
+        if isinstance(exc, pywbem.ListenerPortError) and \
+                lk.listener_of_port(run.port) != 'self' and \
+                (w - 1 not in post or (post[w - 1]['refused'] and
+                                       post[w - 1]['bindable'])):
+            # the port was free after stop() and is not held by this
+            # process: somebody else took it before start()
+            ctx.harness_errors.append({
+                'case': ctx.case_index, 'traceback': 'port taken by a '
+                'foreign process between stop() and start(): inconclusive'})
+            continue
         if w == 0:
             key = 'start.raised:' + exc_key(exc)
         elif kw['after_stop_raised']:
@@ -372,7 +385,12 @@ def judge(ctx, cfg, run, detail):
             V('stop.thread-left-behind',
               'threads alive after stop() of wave %d: %s' % (w, kw['threads']),
               detail)
-        if not kw['refused'] or not kw['bindable']:
+        if kw['owner'] == 'other':
+            # another process listens on our port: environment, not pywbem
+            ctx.harness_errors.append({
+                'case': ctx.case_index, 'traceback': 'a foreign process '
+                'listens on port of this run after stop(): inconclusive'})
+        elif not kw['refused'] or not kw['bindable']:
             V('stop.port-still-bound',
               'after stop() of wave %d the port %s' % (
                   w, 'still accepts connections' if not kw['refused']
